@@ -10,6 +10,7 @@ use std::time::{Duration, Instant};
 pub fn run(ctx: &mut Ctx) {
     run_recv(ctx);
     run_idle(ctx);
+    run_after_bad(ctx);
     run_spawn(ctx);
     let ips = [0u32, 1, 0x7f000001, 0x0a000001, 0xc0a80001, 0x01020304, 0xffffffff, 0x80000000, 0x00ff00ff];
     let ports = [0u16, 1, 80, 3000, 0x1234, 0xff00, 0x00ff, 65535];
@@ -344,4 +345,47 @@ pub fn run_idle(ctx: &mut Ctx) {
         ctx.check("spawn.timer-after-idle", "spawn-timer-fires-before-its-lower-bound", &["SPAWN.on_command.ensures.set-timer"], ok,
             format!("timeout answer {:?} ms after the request to arm a 400 ms timer", after), "no earlier than 400 ms after the arming (sent at t0, so >= ~400 ms after t0)".into());
     }
+}
+
+
+// ---- a Send that cannot be serialized is ignored ALONE: the commands after it are still executed -------------------
+struct AfterBad;
+impl Actor for AfterBad {
+    type Msg = Vec<u8>;
+    type State = u32;
+    type Timer = ();
+    type Random = ();
+    fn on_start(&self, _id: Id, _o: &mut Out<Self>) -> u32 { 0 }
+    fn on_msg(&self, _id: Id, _state: &mut std::borrow::Cow<u32>, src: Id, msg: Vec<u8>, o: &mut Out<Self>) {
+        match msg.first() {
+            Some(0) => o.send(src, vec![0]),
+            Some(4) => { o.send(src, vec![0xFF]); o.send(src, vec![5]); }
+            _ => {}
+        }
+    }
+}
+fn ser_rejecting(m: &Vec<u8>) -> Result<Vec<u8>, String> { if m.first() == Some(&0xFF) { Err("unserializable".into()) } else { Ok(m.clone()) } }
+
+pub fn run_after_bad(ctx: &mut Ctx) {
+    let case = "spawn.send-after-unserializable";
+    if !ctx.want(case) { return; }
+    let Some((me, _)) = bind_in(43300) else { eprintln!("c17: no UDP port; skipping {}", case); return };
+    let Some((probe, actor_port)) = bind_in(43340) else { return };
+    drop(probe);
+    let actor_addr = SocketAddrV4::new(Ipv4Addr::LOCALHOST, actor_port);
+    std::thread::spawn(move || {
+        let _ = spawn::<AfterBad, String>(ser_rejecting, raw_de, vec![(Id::from(actor_addr), AfterBad)]);
+    });
+    let deadline = Instant::now() + ms(3000);
+    let mut up = false;
+    while Instant::now() < deadline && !up {
+        let _ = me.send_to(&[0u8], actor_addr);
+        if let Some((b, _, _)) = recv_before(&me, Instant::now() + ms(100)) { up = b == vec![0u8]; }
+    }
+    while recv_before(&me, Instant::now() + ms(150)).is_some() {}
+    if !up { eprintln!("c17: the AfterBad actor did not come up; skipping {}", case); return; }
+    let _ = me.send_to(&[4u8], actor_addr);
+    let got = recv_before(&me, Instant::now() + ms(6000)).map(|(b, _, _)| b);
+    ctx.check(case, "spawn-send-not-one-datagram-each", &["SPAWN.on_command.ensures.send-ok", "LOOP.loop_iteration.check.each-command-through-on-command"], got == Some(vec![5u8]),
+        format!("{:?}", got), "the serializable Send that follows an unserializable one is emitted: [5]".into());
 }
